@@ -107,8 +107,10 @@ def stream_cases(c, decomp):
                 ops.append(rng.choice(nums + dnums))
         lines.append("ST " + " ".join(ops))
     # the same scenarios on ThreadedBufferedStream (no flush there)
-    lines += ["TS" + l[2:] for l in lines if " fl" not in l]
-    return lines
+    ts = ["TS" + l[2:] for l in lines if " fl" not in l]
+    # util::StringStream: numbers after strings of every small length (std::string growth boundaries: 15/16, 30/31 ...)
+    ss = ["SS w:%d %s p" % (n, num) for num in nums + dnums for n in list(range(0, 34)) + [62, 63, 64, 127, 128]]
+    return lines + ts + ss
 
 
 def run_until_death(exe, lines, env=None):
@@ -194,6 +196,8 @@ def part_formatters(c, drv, kconst):
                 same = False
             if not same:
                 c.violation("formatter-wrong-text: ToString(%s bits %s) = %r does not denote the value" % (p[1], p[-1], text), {"harness": "hx_tostring", "case": l, "impl": o})
+        elif p[0] == "SS":
+            c.count(l, bucket="string-stream")
         elif p[0] in ("ST", "TS"):
             c.count(l, bucket=("stream/" if p[0] == "ST" else "threaded-stream/") + ("edge" if len(p) == 4 else "random"))
             sizes = [int(x) for x in op[1:-1]]
